@@ -128,7 +128,8 @@ def render_fragment(unit, docs, types):
             raise ExtractionBreak('fragment %s uses this but has no self struct name' % unit['name'])
         params.append('%s *self' % unit['self'])
     locals_txt = ''
-    for did, (nm, ct) in p.freevars.items():
+    # canonical parameter order (by name): independent of the order in which the statements happen to mention the variables
+    for did, (nm, ct) in sorted(p.freevars.items(), key=lambda kv: kv[1][0]):
         if unit.get('free_locals_nondet') and p.freevar_kind.get(did) == 'VarDecl':
             # a local of the enclosing function: inside the fragment an arbitrary value whose updates are not observable
             locals_txt += '\t%s %s_v; %s *%s = &%s_v;\n' % (ct, nm, ct, nm, nm)
@@ -137,7 +138,7 @@ def render_fragment(unit, docs, types):
             params.append('%s %s' % (ct, nm))
         else:
             params.append('%s *%s' % (ct, nm))
-    for nm, ct in p.exposed.items():
+    for nm, ct in sorted(p.exposed.items()):
         params.append('%s *%s' % (ct, nm))
     txt = locals_txt + txt
     sig = 'void %s(%s)' % (unit['name'], ', '.join(params) if params else 'void')
